@@ -3,6 +3,6 @@ CONSTANTS
   MaxDev = 2
   NamesSet = {"utf8", "legacy"}
   CoreOnly = FALSE
-  Gaps = {"F9a", "F9b", "F9c", "F9d", "F9e"}
+  Gaps = {}
 INVARIANTS Inv_C01_ModuloKnown
 CHECK_DEADLOCK FALSE
